@@ -333,6 +333,9 @@ DIMS = [
     Dim("relative", [("off", {}), ("on", {"relative-paths": True})]),
     Dim("view", [("unified", {}), ("color-moved", {"max-line-distance": "1"})]),
     Dim("line-buffer-size", [("32", {}), ("0", {"line-buffer-size": "0"})]),
+    # how the commit line between two commits' files is treated must not matter for the files' headers
+    Dim("commit-style", [("reserved", {}), ("omit", {"commit-style": "omit"}),
+                         ("raw", {"commit-style": "raw", "commit-decoration-style": "none"})]),
 ]
 
 
